@@ -35,6 +35,171 @@ def _self_reads(fnode: ast.AST) -> set[str]:
     return out
 
 
+def cache_coherence(chk: Check, rule: str = "R17.5") -> None:
+    """Typestate rule shared with the properties that consume cached grid data (C09, C13, C16)."""
+    S = chk.src
+    # ---------------- R17.5 -------------------------------------------------
+    params: dict[str, set[str]] = {}
+    for g in GRIDS:
+        ci = S.cls(g)
+        reads = set()
+        for ci2 in S.mro(g):
+            for m in ("decompactify", "compactificationDerivatives"):
+                if m in ci2.methods:
+                    reads |= _self_reads(ci2.methods[m].node)
+        params[g] = reads
+    all_params = set().union(*params.values())
+    chk.note(f"map parameters read by the maps: {sorted(all_params)}")
+    # stores of derived parameters (aIn, aOut depend on others): any self.<attr> store in the classes
+    for g in GRIDS:
+        ci = S.cls(g)
+        mro = S.mro(g)
+        meths: dict[str, object] = {}
+        for c2 in reversed(mro):
+            meths.update(c2.methods)
+        P = all_params | {"chiValues", "rzValues", "rpValues"}
+
+        def direct_stores(fi):
+            return [(a, n) for a, n in attr_stores(fi.node) if a in P]
+
+        # transitive summaries over self-calls / super().__init__
+        def callees(fi):
+            out = []
+            for n in own_nodes(fi.node):
+                if isinstance(n, ast.Call) and isinstance(n.func, ast.Attribute):
+                    if isinstance(n.func.value, ast.Name) and n.func.value.id == "self" and n.func.attr in meths:
+                        out.append((n, meths[n.func.attr]))
+                    elif isinstance(n.func.value, ast.Call) and dotted(n.func.value.func) == "super":
+                        for c2 in mro[1:] if fi.cls == ci.name else S.mro(f"{fi.module}:{fi.cls}")[1:]:
+                            if n.func.attr in c2.methods:
+                                out.append((n, c2.methods[n.func.attr]))
+                                break
+            return out
+
+        stores_memo: dict = {}
+
+        def stores(fi, depth=0):
+            if fi.name in stores_memo:
+                return stores_memo[fi.name]
+            stores_memo[fi.name] = False
+            r_ = bool(direct_stores(fi)) or (depth < 6 and any(stores(c, depth + 1) for _, c in callees(fi)))
+            stores_memo[fi.name] = r_
+            return r_
+
+        caches_memo: dict = {}
+
+        def always_caches(fi, depth=0):
+            if fi.name in caches_memo:
+                return caches_memo[fi.name]
+            caches_memo[fi.name] = False
+            if fi.qual.endswith("._cacheCoordinates"):
+                caches_memo[fi.name] = True
+                return True
+            g_ = CFG(fi.node)
+            cn = {g_.node_of(n) for n, c in callees(fi) if depth < 6 and always_caches(c, depth + 1)}
+            cn.discard(None)
+            r_ = bool(cn) and g_.must_pass(CFG.ENTRY, CFG.EXIT, lambda n: n in cn)
+            caches_memo[fi.name] = r_
+            return r_
+
+        for name, fi in sorted(ci.methods.items()):
+            if name.startswith("_") and name != "__init__":
+                continue
+            chk.touch(fi.name)
+            if not stores(fi):
+                continue
+            g_ = CFG(fi.node)
+            store_nodes = {g_.node_of(n) for _, n in direct_stores(fi)} | \
+                          {g_.node_of(n) for n, c in callees(fi) if stores(c)}
+            store_nodes.discard(None)
+            cache_nodes = {g_.node_of(n) for n, c in callees(fi) if always_caches(c)}
+            cache_nodes.discard(None)
+            bad = []
+            for sn in store_nodes:
+                if sn in cache_nodes:
+                    continue  # the storing call itself re-caches before returning
+                if not g_.must_pass(sn, CFG.EXIT, lambda n: n in cache_nodes):
+                    bad.append(f"line {getattr(sn, 'lineno', '?')}")
+            chk.ob(rule, fi.where(), f"{ci.name}.{name} changes map parameters and re-caches coordinates and Jacobians "
+                   "on every path before returning", not bad, "store not followed by _cacheCoordinates: " + ", ".join(bad),
+                   key=f"recache|{ci.name}.{name}")
+        # cached attributes written only by _cacheCoordinates
+        for name, fi in sorted(ci.methods.items()):
+            w = [a for a, _ in attr_stores(fi.node) if a in CACHED]
+            if w:
+                chk.ob(rule, fi.where(), f"cached coordinates/Jacobians are written only by _cacheCoordinates ({ci.name}.{name} writes {sorted(set(w))})",
+                       name == "_cacheCoordinates", key=f"cachewriter|{ci.name}.{name}")
+    # _cacheCoordinates computes all six from the current compact grids with the (dynamically dispatched) maps
+    fcache = S.func("grid:Grid._cacheCoordinates")
+    chk.touch(fcache.name)
+    got = {}
+    for n in own_nodes(fcache.node):
+        if isinstance(n, ast.Assign) and isinstance(n.targets[0], ast.Tuple) and isinstance(n.value, ast.Call):
+            nm = dotted(n.value.func)
+            tg = [dotted(t) for t in n.targets[0].elts]
+            ar = [dotted(a) for a in n.value.args]
+            got[nm] = (tg, ar)
+    want_args = ["self.chiValues", "self.rzValues", "self.rpValues"]
+    ok = got.get("self.decompactify") == (["self.xiValues", "self.pzValues", "self.ppValues"], want_args) and \
+        got.get("self.compactificationDerivatives") == (["self.dxidchi", "self.dpzdrz", "self.dppdrp"], want_args)
+    chk.ob(rule, fcache.where(), "_cacheCoordinates stores (xi,pz,pp) = self.decompactify(chi,rz,rp) and "
+           "(dxidchi,dpzdrz,dppdrp) = self.compactificationDerivatives(chi,rz,rp) in matching order", ok, str(got),
+           key="cache|assignments")
+    # getters return the cached attributes in the same order
+    for getter, want in (("getCoordinates", ["self.xiValues", "self.pzValues", "self.ppValues"]),
+                         ("getCompactificationDerivatives", ["self.dxidchi", "self.dpzdrz", "self.dppdrp"]),
+                         ("getCompactCoordinates", None)):
+        fg = S.func(f"grid:Grid.{getter}")
+        chk.touch(fg.name)
+        if want is None:
+            continue
+        last = [n for n in own_nodes(fg.node) if isinstance(n, ast.Return)]
+        tup = [n for n in last if isinstance(n.value, ast.Tuple) and all(dotted(e) for e in n.value.elts)]
+        okg = any([dotted(e) for e in n.value.elts] == want for n in tup)
+        chk.ob(rule, fg.where(), f"{getter}() returns {want} in this order", okg, key=f"getter|{getter}")
+    # nobody outside the grid classes writes grid parameters or caches
+    outside = []
+    guarded = all_params | CACHED | {"chiValues", "rzValues", "rpValues"}
+    gridmods = {"grid", "grid3Scales"}
+    # names that hold grid objects: parameters annotated Grid/Grid3Scales, locals built by the constructors
+    gridnames = set()
+    for fi in S.all_funcs():
+        a_ = fi.node.args
+        for p_ in a_.posonlyargs + a_.args + a_.kwonlyargs:
+            if p_.annotation is not None and src(p_.annotation).strip("'\"").split(".")[-1] in ("Grid", "Grid3Scales"):
+                gridnames.add(p_.arg)
+        for n in own_nodes(fi.node):
+            if isinstance(n, (ast.Assign, ast.AnnAssign)) and isinstance(getattr(n, "value", None), ast.Call):
+                cn = (dotted(n.value.func) or "").split(".")[-1]
+                if cn in ("Grid", "Grid3Scales", "buildGrid"):
+                    tg_ = n.targets if isinstance(n, ast.Assign) else [n.target]
+                    for t_ in tg_:
+                        if isinstance(t_, ast.Name):
+                            gridnames.add(t_.id)
+    chk.note(f"names holding grid objects: {sorted(gridnames)}")
+    for fi in S.all_funcs():
+        if fi.module in gridmods and fi.cls in ("Grid", "Grid3Scales"):
+            continue
+        for n in ast.walk(fi.node):
+            tg = []
+            if isinstance(n, ast.Assign):
+                tg = n.targets
+            elif isinstance(n, ast.AugAssign):
+                tg = [n.target]
+            for t_ in tg:
+                for tt in ([t_] if not isinstance(t_, ast.Tuple) else t_.elts):
+                    base = tt
+                    while isinstance(base, ast.Subscript):
+                        base = base.value
+                    if isinstance(base, ast.Attribute) and base.attr in guarded:
+                        d_ = dotted(base.value) or ""
+                        if d_.split(".")[-1] in gridnames:
+                            outside.append(fi.where(n))
+    chk.ob(rule, "src/WallGo", "no code outside Grid/Grid3Scales stores grid parameters or cached arrays on a grid object",
+           not outside, "; ".join(outside), key="outside-writers")
+
+
+
 def rules(chk: Check) -> None:
     S = chk.src
     ex = Extractor(S, positive=POS)
@@ -196,165 +361,7 @@ def rules(chk: Check) -> None:
     chk.ob("R17.4", "src/WallGo/config.py", "default smoothing values lie in (0, 1/2), where monotonicity is proved",
            len(sm_defaults) == 2 and all(0 < v < 0.5 for _, v in sm_defaults), str(sm_defaults), key="smoothing-defaults")
 
-    # ---------------- R17.5 -------------------------------------------------
-    params: dict[str, set[str]] = {}
-    for g in GRIDS:
-        ci = S.cls(g)
-        reads = set()
-        for ci2 in S.mro(g):
-            for m in ("decompactify", "compactificationDerivatives"):
-                if m in ci2.methods:
-                    reads |= _self_reads(ci2.methods[m].node)
-        params[g] = reads
-    all_params = set().union(*params.values())
-    chk.note(f"map parameters read by the maps: {sorted(all_params)}")
-    # stores of derived parameters (aIn, aOut depend on others): any self.<attr> store in the classes
-    for g in GRIDS:
-        ci = S.cls(g)
-        mro = S.mro(g)
-        meths: dict[str, object] = {}
-        for c2 in reversed(mro):
-            meths.update(c2.methods)
-        P = all_params | {"chiValues", "rzValues", "rpValues"}
-
-        def direct_stores(fi):
-            return [(a, n) for a, n in attr_stores(fi.node) if a in P]
-
-        # transitive summaries over self-calls / super().__init__
-        def callees(fi):
-            out = []
-            for n in own_nodes(fi.node):
-                if isinstance(n, ast.Call) and isinstance(n.func, ast.Attribute):
-                    if isinstance(n.func.value, ast.Name) and n.func.value.id == "self" and n.func.attr in meths:
-                        out.append((n, meths[n.func.attr]))
-                    elif isinstance(n.func.value, ast.Call) and dotted(n.func.value.func) == "super":
-                        for c2 in mro[1:] if fi.cls == ci.name else S.mro(f"{fi.module}:{fi.cls}")[1:]:
-                            if n.func.attr in c2.methods:
-                                out.append((n, c2.methods[n.func.attr]))
-                                break
-            return out
-
-        stores_memo: dict = {}
-
-        def stores(fi, depth=0):
-            if fi.name in stores_memo:
-                return stores_memo[fi.name]
-            stores_memo[fi.name] = False
-            r_ = bool(direct_stores(fi)) or (depth < 6 and any(stores(c, depth + 1) for _, c in callees(fi)))
-            stores_memo[fi.name] = r_
-            return r_
-
-        caches_memo: dict = {}
-
-        def always_caches(fi, depth=0):
-            if fi.name in caches_memo:
-                return caches_memo[fi.name]
-            caches_memo[fi.name] = False
-            if fi.qual.endswith("._cacheCoordinates"):
-                caches_memo[fi.name] = True
-                return True
-            g_ = CFG(fi.node)
-            cn = {g_.node_of(n) for n, c in callees(fi) if depth < 6 and always_caches(c, depth + 1)}
-            cn.discard(None)
-            r_ = bool(cn) and g_.must_pass(CFG.ENTRY, CFG.EXIT, lambda n: n in cn)
-            caches_memo[fi.name] = r_
-            return r_
-
-        for name, fi in sorted(ci.methods.items()):
-            if name.startswith("_") and name != "__init__":
-                continue
-            chk.touch(fi.name)
-            if not stores(fi):
-                continue
-            g_ = CFG(fi.node)
-            store_nodes = {g_.node_of(n) for _, n in direct_stores(fi)} | \
-                          {g_.node_of(n) for n, c in callees(fi) if stores(c)}
-            store_nodes.discard(None)
-            cache_nodes = {g_.node_of(n) for n, c in callees(fi) if always_caches(c)}
-            cache_nodes.discard(None)
-            bad = []
-            for sn in store_nodes:
-                if sn in cache_nodes:
-                    continue  # the storing call itself re-caches before returning
-                if not g_.must_pass(sn, CFG.EXIT, lambda n: n in cache_nodes):
-                    bad.append(f"line {getattr(sn, 'lineno', '?')}")
-            chk.ob("R17.5", fi.where(), f"{ci.name}.{name} changes map parameters and re-caches coordinates and Jacobians "
-                   "on every path before returning", not bad, "store not followed by _cacheCoordinates: " + ", ".join(bad),
-                   key=f"recache|{ci.name}.{name}")
-        # cached attributes written only by _cacheCoordinates
-        for name, fi in sorted(ci.methods.items()):
-            w = [a for a, _ in attr_stores(fi.node) if a in CACHED]
-            if w:
-                chk.ob("R17.5", fi.where(), f"cached coordinates/Jacobians are written only by _cacheCoordinates ({ci.name}.{name} writes {sorted(set(w))})",
-                       name == "_cacheCoordinates", key=f"cachewriter|{ci.name}.{name}")
-    # _cacheCoordinates computes all six from the current compact grids with the (dynamically dispatched) maps
-    fcache = S.func("grid:Grid._cacheCoordinates")
-    chk.touch(fcache.name)
-    got = {}
-    for n in own_nodes(fcache.node):
-        if isinstance(n, ast.Assign) and isinstance(n.targets[0], ast.Tuple) and isinstance(n.value, ast.Call):
-            nm = dotted(n.value.func)
-            tg = [dotted(t) for t in n.targets[0].elts]
-            ar = [dotted(a) for a in n.value.args]
-            got[nm] = (tg, ar)
-    want_args = ["self.chiValues", "self.rzValues", "self.rpValues"]
-    ok = got.get("self.decompactify") == (["self.xiValues", "self.pzValues", "self.ppValues"], want_args) and \
-        got.get("self.compactificationDerivatives") == (["self.dxidchi", "self.dpzdrz", "self.dppdrp"], want_args)
-    chk.ob("R17.5", fcache.where(), "_cacheCoordinates stores (xi,pz,pp) = self.decompactify(chi,rz,rp) and "
-           "(dxidchi,dpzdrz,dppdrp) = self.compactificationDerivatives(chi,rz,rp) in matching order", ok, str(got),
-           key="cache|assignments")
-    # getters return the cached attributes in the same order
-    for getter, want in (("getCoordinates", ["self.xiValues", "self.pzValues", "self.ppValues"]),
-                         ("getCompactificationDerivatives", ["self.dxidchi", "self.dpzdrz", "self.dppdrp"]),
-                         ("getCompactCoordinates", None)):
-        fg = S.func(f"grid:Grid.{getter}")
-        chk.touch(fg.name)
-        if want is None:
-            continue
-        last = [n for n in own_nodes(fg.node) if isinstance(n, ast.Return)]
-        tup = [n for n in last if isinstance(n.value, ast.Tuple) and all(dotted(e) for e in n.value.elts)]
-        okg = any([dotted(e) for e in n.value.elts] == want for n in tup)
-        chk.ob("R17.5", fg.where(), f"{getter}() returns {want} in this order", okg, key=f"getter|{getter}")
-    # nobody outside the grid classes writes grid parameters or caches
-    outside = []
-    guarded = all_params | CACHED | {"chiValues", "rzValues", "rpValues"}
-    gridmods = {"grid", "grid3Scales"}
-    # names that hold grid objects: parameters annotated Grid/Grid3Scales, locals built by the constructors
-    gridnames = set()
-    for fi in S.all_funcs():
-        a_ = fi.node.args
-        for p_ in a_.posonlyargs + a_.args + a_.kwonlyargs:
-            if p_.annotation is not None and src(p_.annotation).strip("'\"").split(".")[-1] in ("Grid", "Grid3Scales"):
-                gridnames.add(p_.arg)
-        for n in own_nodes(fi.node):
-            if isinstance(n, (ast.Assign, ast.AnnAssign)) and isinstance(getattr(n, "value", None), ast.Call):
-                cn = (dotted(n.value.func) or "").split(".")[-1]
-                if cn in ("Grid", "Grid3Scales", "buildGrid"):
-                    tg_ = n.targets if isinstance(n, ast.Assign) else [n.target]
-                    for t_ in tg_:
-                        if isinstance(t_, ast.Name):
-                            gridnames.add(t_.id)
-    chk.note(f"names holding grid objects: {sorted(gridnames)}")
-    for fi in S.all_funcs():
-        if fi.module in gridmods and fi.cls in ("Grid", "Grid3Scales"):
-            continue
-        for n in ast.walk(fi.node):
-            tg = []
-            if isinstance(n, ast.Assign):
-                tg = n.targets
-            elif isinstance(n, ast.AugAssign):
-                tg = [n.target]
-            for t_ in tg:
-                for tt in ([t_] if not isinstance(t_, ast.Tuple) else t_.elts):
-                    base = tt
-                    while isinstance(base, ast.Subscript):
-                        base = base.value
-                    if isinstance(base, ast.Attribute) and base.attr in guarded:
-                        d_ = dotted(base.value) or ""
-                        if d_.split(".")[-1] in gridnames:
-                            outside.append(fi.where(n))
-    chk.ob("R17.5", "src/WallGo", "no code outside Grid/Grid3Scales stores grid parameters or cached arrays on a grid object",
-           not outside, "; ".join(outside), key="outside-writers")
+    cache_coherence(chk, "R17.5")
 
     # ---------------- R17.6 -------------------------------------------------
     for g, ctor_cls in (("grid:Grid", "grid:Grid"), ("grid3Scales:Grid3Scales", "grid3Scales:Grid3Scales")):
